@@ -92,6 +92,15 @@ CHECKS["C15"] = ("fault_enumeration",
     "Generated workspaces: 1-4 dependency-free libcnb.rs buildpack crates with 0-2 additional binary targets (unique names, or one name shared by several crates), 0-2 composites whose package.toml mixes libcnb:/path/docker/urn dependencies forming a DAG (also on other composites), buildpacks nested beneath a composite's directory, a foreign non-libcnb buildpack, an ignore file. Invocations: workspace root, each buildpack directory, directories that are no buildpack (with and without buildpacks below), dev/release, default/relative/absolute --package-dir. Checked per run: exit status, stdout = exactly the selected buildpacks' directories, each output dir holds exactly buildpack.toml (byte-identical), bin/build (byte-identical to the cargo artifact), bin/detect -> build, .libcnb-cargo/additional-bin/<target>, package.toml (normalised per the C14 oracle) and nothing else. Histories: clean; 9 kinds of stale/foreign content planted in an output dir; every (quick: up to 24 per workspace) crash point followed by a normal re-run, whose tree must equal the clean one.",
     "Trusted: the tree specification in tools/c15.py, shim/fsshim.c. Only --target x86_64-unknown-linux-gnu can be built here; runs as root (undeletable stale content not explored).")
 
+CHECKS["C16"] = ("fault_enumeration",
+    "runtime monitoring with fault injection: scenario trees interpreted by the real libcnb-test TestRunner on a spawned thread against argv-logging stand-ins for docker and pack; exactly one fault per run (a panic at every node position, a panic in the app-dir preprocessor, or every external command failing in turn); the command log and TMPDIR are judged by cleanup rules",
+    "All scenario trees up to depth 2 (quick, sampled to 70) / 3 (thorough) over build, rebuild (with/without preprocessor), start_container with up to two of logs_now / logs_wait / address_for_port / shell_exec, run_shell_command, download_sbom_files, both expected pack results; for each tree the baseline plus one run per fault position (~900 / ~2100 runs). Rules: every docker run --detach --name N (succeeded or not) is followed by docker rm --force N; for every image given to pack build exactly one docker rmi --force and exactly one docker volume remove --force I.build-cache I.launch-cache, both after the last command using the image (incl. rebuilds); only names created / allocated by this run are removed; non-detached runs carry --rm; TMPDIR is empty at exit; the process never aborts.",
+    "Trusted: tools/testrun.py parsers, harness vpstandin. Stand-ins implement argument grammar and exit behaviour only; no real docker/pack. Two simultaneous faults are outside the quantifier.")
+CHECKS["C17"] = ("exploration",
+    "runtime monitoring: generated BuildConfig / ContainerConfig values driven through the real TestRunner; the argv recorded by the docker/pack stand-ins is decoded by reference parsers written from the CLIs' own option grammars (pflag; docker run/exec non-interspersed) and compared with the configuration",
+    "Generated configurations with hostile strings (leading - and --, option look-alikes such as --name=evil, spaces, '=' in values, quotes, $, backticks, Unicode, empty, tab, newline) for builder, env values, entrypoint, command vectors, buildpack references (incl. duplicates), shell commands; random port and bind-mount sets; relative / dotted / absolute app dirs; preprocessors that add and remove files. Decoding must give exactly one pack build with the image name, builder, --path = the fixture itself or a private copy whose content = fixture + preprocessor edits (fixture untouched), buildpacks in configured order, each env pair once; and for docker run the name, detach/rm, platform, entrypoint, env map, publish set 127.0.0.1::<p>, mounts, IMAGE and command; run_shell_command and shell_exec arrive as single arguments. Any argv that does not parse under the target grammar is a violation.",
+    "Trusted: the reference parsers in tools/testrun.py. Not generated (the target grammars give them meaning): '=' in env keys, ',' and '\"' in mount paths and buildpack references.")
+
 PENDING = {}
 
 
